@@ -82,6 +82,11 @@ func (state *singleRateLimitState) Counter() int64 {
 	state.mutex.Lock()
 	defer state.mutex.Unlock()
 
+	if state.windowData.WindowSize == 0 {
+		// Published but not incremented yet (a metrics read can fall in
+		// between): there is no window to bring up to date.
+		return state.counter
+	}
 	state.ensureWindowIsUpdated()
 	return state.counter
 }
